@@ -1,0 +1,56 @@
+//go:build verif
+
+package ssh
+
+// Contracts for the verification framework in /verif (comment-only file,
+// compiled only with -tags verif; see /verif/DESIGN.md).
+
+//@ import key "github.com/theparanoids/ysshra/sshutils/key"
+//@ import ag "golang.org/x/crypto/ssh/agent"
+
+//@ # ---------------------------------------------------------------- C02/C03: the agent key
+//@ func NewSSHAgentKeyWithOpt(agent, opt)
+//@   flag logged
+//@   requires agent != nil
+//@   let g0 = old(calls(key.GenerateKeyPair))
+//@   let a0 = old(calls(Agent.Add))
+//@   let r0 = old(calls(Agent.Remove))
+//@   let ra0 = old(calls(Agent.RemoveAll))
+//@   ensures err != nil ==> result0 == nil
+//@   ensures [fresh-pair-of-the-requested-algorithm] calls(key.GenerateKeyPair) == g0 + 1 && arg(key.GenerateKeyPair, g0, 0) == opt.PublicKeyAlgo
+//@   ensures [private-key-inserted-with-the-configured-lifetime] err == nil ==> (ret(key.GenerateKeyPair, g0, 2) == nil && calls(Agent.Add) == a0 + 1 &&
+//@     arg(Agent.Add, a0, 0) == agent && ret(Agent.Add, a0, 0) == nil &&
+//@     arg(Agent.Add, a0, 1).PrivateKey == ret(key.GenerateKeyPair, g0, 0) && arg(Agent.Add, a0, 1).LifetimeSecs == opt.PrivateKeyValiditySec &&
+//@     arg(Agent.Add, a0, 1).Certificate == nil && arg(Agent.Add, a0, 1).Comment == opt.PrivateKeyLabel && !arg(Agent.Add, a0, 1).ConfirmBeforeUse)
+//@   ensures [agent-key-remembers-what-was-inserted] err == nil ==> (result0 != nil && fresh(result0) && result0.agent == agent &&
+//@     result0.pubKey == ret(key.GenerateKeyPair, g0, 1) && result0.pubKey != nil && result0.addedKey.PrivateKey == ret(key.GenerateKeyPair, g0, 0) &&
+//@     result0.addedKey.LifetimeSecs == opt.PrivateKeyValiditySec && result0.addedKey.Certificate == nil && !result0.addedKey.ConfirmBeforeUse &&
+//@     result0.opt.KeyRefreshFilter == opt.KeyRefreshFilter && result0.opt.CertLabel == opt.CertLabel && result0.opt.PrivateKeyValiditySec == opt.PrivateKeyValiditySec)
+//@   ensures [nothing-removed] calls(Agent.Remove) == r0 && calls(Agent.RemoveAll) == ra0 && calls(Agent.Add) <= a0 + 1
+
+//@ func (*AgentKey).PublicKey(a)
+//@   requires a != nil
+//@   ensures result == a.pubKey
+
+//@ # refreshKeys: one listing; only listed identities selected by the filter are removed, and on success all of them
+//@ func (*AgentKey).refreshKeys(a)
+//@   flag logged purecallbacks
+//@   requires a != nil && a.agent != nil && a.opt.KeyRefreshFilter != nil
+//@   let l0 = old(calls(Agent.List))
+//@   let r0 = old(calls(Agent.Remove))
+//@   let ra0 = old(calls(Agent.RemoveAll))
+//@   let a0 = old(calls(Agent.Add))
+//@   ensures calls(Agent.List) == l0 + 1 && arg(Agent.List, l0, 0) == a.agent
+//@   ensures ret(Agent.List, l0, 1) != nil ==> (result != nil && calls(Agent.Remove) == r0)
+//@   ensures [only-listed-identities-selected-by-the-filter-are-removed] forall(c, r0 <= c && c < calls(Agent.Remove), arg(Agent.Remove, c, 0) == a.agent &&
+//@     exists(j, 0 <= j && j < len(ret(Agent.List, l0, 0)), arg(Agent.Remove, c, 1) == asKey(ret(Agent.List, l0, 0)[j]) && apply(a.opt.KeyRefreshFilter, ret(Agent.List, l0, 0)[j])))
+//@   ensures [every-selected-identity-removed-on-success] result == nil ==> (ret(Agent.List, l0, 1) == nil && forall(j, 0 <= j && j < len(ret(Agent.List, l0, 0)),
+//@     apply(a.opt.KeyRefreshFilter, ret(Agent.List, l0, 0)[j]) ==> exists(c, r0 <= c && c < calls(Agent.Remove), arg(Agent.Remove, c, 1) == asKey(ret(Agent.List, l0, 0)[j]) && ret(Agent.Remove, c, 0) == nil)))
+//@   ensures [no-wholesale-removal-no-insert] calls(Agent.RemoveAll) == ra0 && calls(Agent.Add) == a0
+//@   loop 1:
+//@     invariant calls(Agent.List) == l0 + 1 && calls(Agent.RemoveAll) == ra0 && calls(Agent.Add) == a0 && calls(Agent.Remove) >= r0
+//@     invariant keys == ret(Agent.List, l0, 0)
+//@     invariant forall(c, r0 <= c && c < calls(Agent.Remove), arg(Agent.Remove, c, 0) == a.agent && ret(Agent.Remove, c, 0) == nil &&
+//@       exists(j, 0 <= j && j < len(keys), arg(Agent.Remove, c, 1) == asKey(keys[j]) && apply(a.opt.KeyRefreshFilter, keys[j])))
+//@     invariant forall(j, 0 <= j && j < rangeindex + 1 && j < len(keys),
+//@       apply(a.opt.KeyRefreshFilter, keys[j]) ==> exists(c, r0 <= c && c < calls(Agent.Remove), arg(Agent.Remove, c, 1) == asKey(keys[j]) && ret(Agent.Remove, c, 0) == nil))
